@@ -204,6 +204,67 @@ func rebuildLedger(n *sim.Net) (fp, msg string, st simLedgerStats) {
 	return "", "", st
 }
 
+// checkAssembled applies the ledger rules to a block the worker has just assembled from the pool
+// (before sealing), against the UTXO set stored at the head it builds on: every input names an
+// output that is stored or was created earlier in this block, is named once in the transaction
+// and once in the block, is spent with its owner's key after its lock height, and no transaction's
+// outputs are worth more than its inputs.
+func checkAssembled(n *sim.Net, full *types.WorkObject) (fp, msg string) {
+	zone := n.Nodes[sim.Zone]
+	num := full.NumberU64(sim.Zone)
+	type rec struct {
+		den   uint8
+		owner []byte
+		lock  uint64
+	}
+	created := map[outp]rec{}
+	blockSpent := map[outp]bool{}
+	for _, tx := range full.Transactions() {
+		if tx.Type() != types.QiTxType {
+			continue
+		}
+		in, txSpent := new(big.Int), map[outp]bool{}
+		for _, ti := range tx.TxIn() {
+			op := outp{ti.PreviousOutPoint.TxHash, ti.PreviousOutPoint.Index}
+			if txSpent[op] {
+				return "assembled/double-spend/same-tx", fmt.Sprintf("the block the worker assembled for height %d contains tx %x naming outpoint %x:%d twice", num, tx.Hash().Bytes()[:6], op.h[:6], op.i)
+			}
+			if blockSpent[op] {
+				return "assembled/double-spend/same-block", fmt.Sprintf("the block the worker assembled for height %d spends outpoint %x:%d in two transactions", num, op.h[:6], op.i)
+			}
+			r, ok := created[op]
+			if !ok {
+				u := rawdb.GetUTXO(zone.DB, op.h, op.i)
+				if u == nil {
+					return "assembled/spend-of-unknown-output", fmt.Sprintf("the block the worker assembled for height %d spends %x:%d which is neither stored nor created earlier in the block", num, op.h[:6], op.i)
+				}
+				r = rec{u.Denomination, u.Address, u.Lock.Uint64()}
+			}
+			if addr := crypto.PubkeyBytesToAddress(ti.PubKey, sim.ZoneLoc); !addr.Equal(common.BytesToAddress(r.owner, sim.ZoneLoc)) {
+				return "assembled/spend-by-non-owner", fmt.Sprintf("assembled block for height %d: output %x:%d owned by %x spent with the key of %x", num, op.h[:6], op.i, r.owner, addr.Bytes())
+			}
+			if r.lock > num {
+				return "assembled/spend-of-locked-output", fmt.Sprintf("assembled block for height %d spends %x:%d locked until %d", num, op.h[:6], op.i, r.lock)
+			}
+			in.Add(in, types.Denominations[r.den])
+			txSpent[op], blockSpent[op] = true, true
+		}
+		out := new(big.Int)
+		for i, to := range tx.TxOut() {
+			out.Add(out, types.Denominations[to.Denomination])
+			lock := uint64(0)
+			if to.Lock != nil {
+				lock = to.Lock.Uint64()
+			}
+			created[outp{tx.Hash(), uint16(i)}] = rec{to.Denomination, to.Address, lock}
+		}
+		if out.Cmp(in) > 0 {
+			return "assembled/value-created", fmt.Sprintf("assembled block for height %d, tx %x: outputs %v exceed inputs %v", num, tx.Hash().Bytes()[:6], out, in)
+		}
+	}
+	return "", ""
+}
+
 func TestC01_WorkerBlocks(t *testing.T) {
 	rapid.Check(t, func(t *rapid.T) {
 		n, err := sim.NewNet(sim.Options{ZoneBackend: rapid.SampledFrom([]string{"memory", "memory", "leveldb", "pebble"}).Draw(t, "backend")})
@@ -216,6 +277,12 @@ func TestC01_WorkerBlocks(t *testing.T) {
 			t.Fatalf("HARNESS: prelude: %v", err)
 		}
 		dump := func() any { return map[string]any{"history": a.Log} }
+		var asmFp, asmMsg string
+		n.OnPending = func(full *types.WorkObject) {
+			if asmFp == "" {
+				asmFp, asmMsg = checkAssembled(n, full)
+			}
+		}
 		var agg simLedgerStats
 		steps := rapid.IntRange(6, 20).Draw(t, "steps")
 		for i := 0; i < steps; i++ {
@@ -227,8 +294,13 @@ func TestC01_WorkerBlocks(t *testing.T) {
 				a.Traffic(t)
 			}
 			a.AdversarialTraffic(t)
-			if _, err := a.MineRandom(t); err != nil {
-				t.Fatalf("HARNESS: mine: %v\n%s", err, strings.Join(a.Log, "\n"))
+			_, mineErr := a.MineRandom(t)
+			if asmFp != "" {
+				stats.Violation(t, partSim, "C01/sim/"+asmFp, fmt.Sprintf("step %d: %s (mining result: %v)", i, asmMsg, mineErr), dump())
+				return
+			}
+			if mineErr != nil {
+				t.Fatalf("HARNESS: mine: %v\n%s", mineErr, strings.Join(a.Log, "\n"))
 			}
 			if err := a.Adopt(); err != nil {
 				t.Fatalf("HARNESS: adopt: %v", err)
@@ -249,6 +321,12 @@ func TestC01_WorkerBlocks(t *testing.T) {
 		}
 		if a.Labels["adv_qiconflict"] > 0 {
 			labels = append(labels, "conflicting_spends_in_pool")
+		}
+		if a.Labels["adv_qidupinput"] > 0 {
+			labels = append(labels, "outpoint_named_twice_in_pooled_tx")
+		}
+		if a.Labels["adv_qimerge"] > 0 {
+			labels = append(labels, "multi_input_musig2_tx_in_pool")
 		}
 		stats.Case(partSim, fmt.Sprintf("qi=%d mints=%d trims=%d %s", min(agg.qiTxs, 9), min(agg.mints, 9), min(agg.trims, 5), strings.Join(labels, ",")), agg.qiTxs > 0 && a.Labels["adv_qiconflict"] > 0, labels...)
 		if agg.qiTxs > 0 && stats.WantSample(partSim) {
